@@ -147,3 +147,26 @@ TEXT.update({
         "technique": _T + "; scripted fault streams, reference interpreter, per-loop unwind bounds",
     },
 })
+
+# ---- as-built refinements of the level texts -------------------------------------------------------------------------------
+TEXT["C05"]["level"] = ("Soundness of dirty marks in three layers. (a) Slice level: the container carries a recording bitmap behind the crate's real BaseSlice at a "
+    "symbolic root offset; for every write-type accessor (buffer, slice, object, typed ref, element array, copy_from, slice-to-slice incl. multi-byte element arrays, "
+    "atomic store, stream reads from &[u8]) every byte that differs from the pre-state and every byte reported written is covered by a mark that reached the root. "
+    "(b) The real AtomicBitmap's page arithmetic for unconstrained 64-bit ranges on a grid of page sizes, and (c) end-to-end with the real AtomicBitmap under a "
+    "VolatileSlice incl. derivation chains: a byte address is dirty IFF its page overlaps the bytes written. Region level (real GuestRegionMmap) and guest-memory level "
+    "(real try_access over the mock: marks land in the bitmap of the region that owns the byte, at that region's own offset). A failing descriptor read marks its whole target.")
+TEXT["C05"]["note"] = "Recorder bitmap is harness code (logs mark_dirty) behind the real BaseSlice; containers <= 16 bytes; page sizes are grid points"
+TEXT["C16"]["level"] = ("Precision of dirty marks, same three layers as C05: every mark lies inside the n bytes reported written; reads, loads, derivations, stream writes out "
+    "of memory and requests rejected before any byte moved record nothing; with the real AtomicBitmap exactly the overlapping pages are dirty (iff); at region and "
+    "guest-memory level no other region and no other offset is marked; a successful descriptor read marks exactly the bytes delivered, a failing one its whole target "
+    "(the documented exception).")
+TEXT["C04"]["level"] += " Stream forms over in-memory slices and the mapped-region container (real GuestRegionMmap) are included."
+TEXT["C09"]["level"] += " Also ArcSlice (clone shares the set, slices of slices add offsets), Option<B> and the unit bitmap."
+TEXT["C06"]["level"] += " Entry points: slice level (all buffer/object/copy/stream forms, typed refs and element arrays) and region level (real GuestRegionMmap)."
+TEXT["C12"]["level"] += " Owned file mappings additionally close their descriptor; an external mapping with a file offset attached stays external."
+TEXT["C18"]["level"] = ("Zero-length accesses at all three layers: slice (recording bitmap), region (real GuestRegionMmap) and guest memory (real default methods and blanket impl over "
+    "a 2-region mock with symbolic layout): empty buffers and zero-sized objects at ANY address return Ok(0)/Ok(()), zero-count stream transfers and copies of zero-sized "
+    "elements succeed, nothing panics, no byte changes, nothing is marked; plus the Xen build's advance-mapped region.")
+TEXT["C18"]["note"] = "three defects found by these harnesses were repaired (known_findings.json 'fixed'); on-demand Xen regions are not claimed at zero length"
+TEXT["C02"]["level"] += " Region-level default methods (address_in_range, check_address, checked_offset, to_region_addr, get_host_address) are queried on one region with symbolic base and size."
+TEXT["C03"]["level"] += " A two-step history (buffer write, then object read through another route at an independent address) checks read-back against the model."
